@@ -94,11 +94,11 @@ pub(crate) fn any_stream_id() -> StreamId {
     StreamId::from(v)
 }
 
-/// Any `proto::Error` shape: Reset with every id/code/initiator, GoAway with every code/initiator and
-/// empty or non-empty debug data, Io (kind BrokenPipe / UnexpectedEof, no message).
+/// `proto::Error` of shape `k % 4` with symbolic payload: Reset with every id/code/initiator, GoAway with
+/// every code/initiator and empty or non-empty debug data, Io (BrokenPipe / UnexpectedEof, no message).
+/// Call with a concrete `k` to let CBMC prune the other shapes, or with `kani::any()` for all at once.
 #[cfg(kani)]
-pub(crate) fn any_proto_error() -> PError {
-    let k: u8 = kani::any();
+pub(crate) fn proto_error_shape(k: u8) -> PError {
     let code: u32 = kani::any();
     match k % 4 {
         0 => PError::Reset(any_stream_id(), Reason::from(code), any_initiator()),
@@ -108,3 +108,19 @@ pub(crate) fn any_proto_error() -> PError {
     }
 }
 
+#[cfg(kani)]
+pub(crate) fn any_proto_error() -> PError {
+    proto_error_shape(kani::any())
+}
+
+// ---------------------------------------------------------------- frames
+
+/// A HEADERS frame with an empty field section: `informational` => :status 100, else :status 200.
+pub(crate) fn mk_headers(id: StreamId, eos: bool, informational: bool) -> crate::frame::Headers {
+    let status = if informational { http::StatusCode::CONTINUE } else { http::StatusCode::OK };
+    let mut f = crate::frame::Headers::new(id, crate::frame::Pseudo::response(status), http::HeaderMap::new());
+    if eos {
+        f.set_end_stream();
+    }
+    f
+}
